@@ -20,6 +20,9 @@ RULE = ("Every chain m0 -> m1 -> ... of length 0..L whose elements are synthetic
 ASSUMPTIONS = ["at exactly 100 successful unwrap steps either outcome is accepted: an error, or a complete steady state (the property says 'more than 100')"]
 
 
+RULE += " Round 9: chains through a yield-from manager also while the frame hook of the helper frame below the manager's own frame fails."
+
+
 def legs(tier):
     from vlib.runner import Leg
     n = 2 if tier == "quick" else 6
